@@ -108,7 +108,7 @@ def _go_build(src, out, race):
     cmd = ["go", "build", "-tags", "verif", "-o", out]
     if race:
         cmd.insert(2, "-race")
-    if os.environ.get("VERIF_COVER"):
+    if os.environ.get("VERIF_COVER") and not race:   # (the race build counts atomically: its counters cannot be merged with the others)
         # statement coverage of the code under test by a check (lib/coverage.sh); counters go to $GOCOVERDIR
         m = "github.com/cloudspannerecosystem/memefish"
         cmd[2:2] = ["-cover", "-coverpkg=mfverif,%s,%s/ast,%s/token,%s/char" % (m, m, m, m)]  # the main package must be instrumented for the counters to be written
